@@ -62,6 +62,7 @@ type mbRec struct {
 	items   []mbItem
 	delay   int
 	pending []*mbPending
+	guard   spareGuard
 }
 
 func (r *mbRec) add(it mbItem) {
@@ -121,6 +122,7 @@ func mbObserver[T any](r *mbRec) ro.Observer[T] {
 				}
 				return
 			}
+			r.guard.claim(any(v))
 			r.add(mbItem{s: "N" + renderVal(v)})
 		},
 		func(err error) { r.add(mbItem{s: "E" + renderErr(err)}) },
@@ -542,6 +544,9 @@ func runMultiBCase(c *Case) string {
 		p.mu.Unlock()
 	}
 	res := fmt.Sprintf("res %s trace=%s drops=%s rel=%s subs=%s", c.id, r.trace(), joinOrDash(drops), joinOrDash(rel), joinOrDash(subs))
+	if r.guard.bad() {
+		res += " _flag=spare-capacity-of-a-delivered-slice-overwritten"
+	}
 
 	if blocking {
 		// let the driver goroutine go: complete whatever inner source it is still waiting on
